@@ -516,7 +516,13 @@ class CompilerPassGenerateCode(CompilerPass):
                         )
                     last_op.op = "j"
 
-        if not apply_tail_call_optimization and (
+        # an early return jumps to the end label, which must not fall through
+        # into the next function when the final 'j ra' is replaced by a tail call
+        has_early_return = any(
+            ret is not node.body[-1] for ret in node.nodes_of_class(nodes.Return)
+        )
+
+        if (not apply_tail_call_optimization or has_early_return) and (
             sym_data.is_read != 1 or not self.data.options.inline_functions
         ):
             data.add_end(IC10("j", ["ra"], indent=1))
